@@ -394,3 +394,159 @@ Ltac perm :=
            generalize (proj1 (Permutation_count_occ oi_dec a b) H x); clear H
          end;
   rewrite ?count_occ_app; intros; lia.
+
+(* ===================================================================== *)
+(* 3. the open instances of a run-time state                               *)
+(* ===================================================================== *)
+(* [opn true]: task instances started and not finished; [opn false]: services announced
+   and not finished; read off the state tree next to the program tree *)
+Fixpoint opn (tk : bool) (ctx : nat) (s : xstmt) (st : rst) {struct st} : list open_inst :=
+  match st, s with
+  | RAwait id, XService n at_ _ => if tk then [] else [inst id (Some ctx) n at_]
+  | RCall id i st', XCall t at_ _ body =>
+    (if tk then [inst id (Some ctx) t at_] else []) ++
+    match nth_error body i with Some s' => opn tk id s' st' | None => [] end
+  | RPar sts, XParallel bs =>
+    (fix zip (sts : list rst) (bs : list xstmt) {struct sts} : list open_inst :=
+       match sts, bs with
+       | st1 :: sr, b :: br => opn tk ctx b st1 ++ zip sr br
+       | _, _ => []
+       end) sts bs
+  | RCond b i st', XCond _ p fl =>
+    match nth_error (if b then p else fl) i with Some s' => opn tk ctx s' st' | None => [] end
+  | RLoop _ i st', XWhile _ body =>
+    match nth_error body i with Some s' => opn tk ctx s' st' | None => [] end
+  | RLoop _ i st', XCount _ _ body =>
+    match nth_error body i with Some s' => opn tk ctx s' st' | None => [] end
+  | RParLoop sts, XParLoop _ _ c =>
+    (fix go (sts : list rst) : list open_inst :=
+       match sts with
+       | st1 :: sr => opn tk ctx c st1 ++ go sr
+       | [] => []
+       end) sts
+  | _, _ => []
+  end.
+
+Fixpoint opn_list (tk : bool) (ctx : nat) (bs : list xstmt) (sts : list rst) : list open_inst :=
+  match sts, bs with
+  | st1 :: sr, b :: br => opn tk ctx b st1 ++ opn_list tk ctx br sr
+  | _, _ => []
+  end.
+
+Definition opn_opt (tk : bool) (ctx : nat) (ss : list xstmt) (r : option (nat * rst)) : list open_inst :=
+  match r with
+  | Some (i, st) => match nth_error ss i with Some s => opn tk ctx s st | None => [] end
+  | None => []
+  end.
+
+Lemma opn_par : forall tk ctx bs sts, opn tk ctx (XParallel bs) (RPar sts) = opn_list tk ctx bs sts.
+Proof.
+  intros tk ctx bs sts. cbn [opn]. revert bs. induction sts as [|st sr IH]; intros [|b br]; try reflexivity.
+  cbn [opn_list]. rewrite <- IH. reflexivity.
+Qed.
+
+Lemma opn_parloop : forall tk ctx v lim c sts,
+    opn tk ctx (XParLoop v lim c) (RParLoop sts) = flat_map (opn tk ctx c) sts.
+Proof.
+  intros tk ctx v lim c sts. cbn [opn]. induction sts as [|st sr IH]; [reflexivity|].
+  cbn [flat_map]. rewrite <- IH. reflexivity.
+Qed.
+
+Lemma opn_list_const : forall tk ctx c (l : list xstmt) sts,
+    List.length sts = List.length l -> Forall (fun b => b = c) l ->
+    opn_list tk ctx l sts = flat_map (opn tk ctx c) sts.
+Proof.
+  intros tk ctx c l sts. revert l. induction sts as [|st sr IH]; intros [|b br] Hl Hf; try discriminate; [reflexivity|].
+  inversion Hf; subst. cbn [opn_list flat_map]. rewrite IH; auto.
+Qed.
+
+Lemma insts_snd : forall ie v c n, map snd (insts ie v c n) = repeat c n.
+Proof.
+  intros ie v c n. unfold insts. rewrite map_map. cbn [snd].
+  generalize 0. induction n as [|n IH]; intro k; [reflexivity|]. cbn. rewrite IH. reflexivity.
+Qed.
+
+Lemma opn_list_insts : forall tk ctx ie v c n sts,
+    List.length sts = n -> opn_list tk ctx (map snd (insts ie v c n)) sts = flat_map (opn tk ctx c) sts.
+Proof.
+  intros. rewrite insts_snd. apply opn_list_const.
+  - rewrite repeat_length. assumption.
+  - apply Forall_forall. intros x Hx. apply repeat_spec in Hx. exact Hx.
+Qed.
+
+Lemma opn_done : forall tk ctx s st, is_done st = true -> opn tk ctx s st = [].
+Proof. intros tk ctx s st H. destruct st; try discriminate. reflexivity. Qed.
+
+Lemma opn_list_done : forall tk ctx bs sts, all_done sts = true -> opn_list tk ctx bs sts = [].
+Proof.
+  intros tk ctx bs sts. revert bs. induction sts as [|st sr IH]; intros bs H; [destruct bs; reflexivity|].
+  cbn in H. apply andb_true_iff in H. destruct H as [H1 H2]. destruct bs as [|b br]; [reflexivity|].
+  cbn [opn_list]. rewrite (opn_done _ _ _ _ H1), IH; auto.
+Qed.
+
+Lemma flat_map_done : forall tk ctx c sts, all_done sts = true -> flat_map (opn tk ctx c) sts = [].
+Proof.
+  intros tk ctx c sts. induction sts as [|st sr IH]; intro H; [reflexivity|].
+  cbn in H. apply andb_true_iff in H. destruct H as [H1 H2]. cbn [flat_map].
+  rewrite (opn_done _ _ _ _ H1), IH; auto.
+Qed.
+
+Lemma map_snd_pair : forall (ie : ienv) (bs : list xstmt), map snd (map (fun b => (ie, b)) bs) = bs.
+Proof. intros. rewrite map_map. cbn. apply map_id. Qed.
+
+(* the context of every open instance of a tree is the surrounding task or a task of the tree *)
+Definition ctx_in (ctx : nat) (B : bool -> list open_inst) : Prop :=
+  forall tk o, In o (B tk) ->
+               oi_ctx o = Some ctx \/ exists t, oi_ctx o = Some t /\ In t (map oi_id (B true)).
+
+Lemma ctx_in_app : forall ctx A B, ctx_in ctx A -> ctx_in ctx B -> ctx_in ctx (fun tk => A tk ++ B tk).
+Proof.
+  intros ctx A B HA HB tk o Hi. apply in_app_iff in Hi. destruct Hi as [Hi|Hi].
+  - destruct (HA _ _ Hi) as [H|(t & H1 & H2)]; [left; exact H|right].
+    exists t. split; [exact H1|]. rewrite map_app. apply in_or_app. left. exact H2.
+  - destruct (HB _ _ Hi) as [H|(t & H1 & H2)]; [left; exact H|right].
+    exists t. split; [exact H1|]. rewrite map_app. apply in_or_app. right. exact H2.
+Qed.
+
+Lemma ctx_in_nil : forall ctx, ctx_in ctx (fun _ => []).
+Proof. intros ctx tk o []. Qed.
+
+Lemma opn_ctx : forall st s ctx, ctx_in ctx (fun tk => opn tk ctx s st).
+Proof.
+  induction st using rst_ind'; intros s0 ctx; destruct s0 as [n at_ ins|t at_ ins body|bs|e p fl|e b0|v lim b0|v lim c];
+    try apply ctx_in_nil.
+  - (* await *) intros tk o Hi. cbn [opn] in Hi. destruct tk; [contradiction|].
+    destruct Hi as [<-|[]]. left. reflexivity.
+  - (* call *) intros tk o Hi. cbn [opn] in Hi. apply in_app_iff in Hi. destruct Hi as [Hi|Hi].
+    + destruct tk; [|contradiction]. destruct Hi as [<-|[]]. left. reflexivity.
+    + right. cbn [opn]. destruct (nth_error body i) as [s'|]; [|contradiction].
+      destruct (IHst s' id _ _ Hi) as [H|(t0 & H1 & H2)].
+      * exists id. split; [exact H|]. left. reflexivity.
+      * exists t0. split; [exact H1|]. cbn [app map]. right. exact H2.
+  - (* par *)
+    assert (Q : forall bs0, ctx_in ctx (fun tk => opn_list tk ctx bs0 sts)).
+    { induction H as [|st sr Hst Hsr IH]; intros [|b br]; try apply ctx_in_nil.
+      cbn [opn_list]. apply (ctx_in_app ctx (fun tk => opn tk ctx b st) (fun tk => opn_list tk ctx br sr)).
+      - apply Hst.
+      - apply IH. }
+    intros tk o Hi. rewrite opn_par in Hi. destruct (Q bs _ _ Hi) as [Hl|(t0 & H1 & H2)]; [left; exact Hl|right].
+    exists t0. split; [exact H1|]. rewrite opn_par. exact H2.
+  - cbn [opn]. destruct (nth_error (if b then p else fl) i); [apply IHst|apply ctx_in_nil].
+  - cbn [opn]. destruct (nth_error b0 i); [apply IHst|apply ctx_in_nil].
+  - cbn [opn]. destruct (nth_error b0 i); [apply IHst|apply ctx_in_nil].
+  - assert (Q : ctx_in ctx (fun tk => flat_map (opn tk ctx c) sts)).
+    { induction H as [|st sr Hst Hsr IH]; [apply ctx_in_nil|].
+      cbn [flat_map]. apply (ctx_in_app ctx (fun tk => opn tk ctx c st) (fun tk => flat_map (opn tk ctx c) sr)).
+      - apply Hst.
+      - apply IH. }
+    intros tk o Hi. rewrite opn_parloop in Hi. destruct (Q _ _ Hi) as [Hl|(t0 & H1 & H2)]; [left; exact Hl|right].
+    exists t0. split; [exact H1|]. rewrite opn_parloop. exact H2.
+Qed.
+
+Lemma opn_list_ctx : forall sts bs ctx, ctx_in ctx (fun tk => opn_list tk ctx bs sts).
+Proof.
+  induction sts as [|st sr IH]; intros [|b br] ctx; try apply ctx_in_nil.
+  cbn [opn_list]. apply (ctx_in_app ctx (fun tk => opn tk ctx b st) (fun tk => opn_list tk ctx br sr)).
+  - apply opn_ctx.
+  - apply IH.
+Qed.
